@@ -19,6 +19,18 @@ def content(pt, kind, sw, sh, rng):
     info = rz.PT[pt]
     nc = info["nc"]
     n = sw * sh * nc
+    if kind == "runs":
+        # runs of 1..12 pixels that are all zero / all maximum / another constant / noise (whole vectors of equal values)
+        isf = info["comp"] == "f32"
+        lo, hi = (0.0, 1.0) if isf else ((0, info["max"]) if info["comp"] != "i32" else (-2 ** 31 + 1, 2 ** 31 - 1))
+        draw = (lambda: rng.uniform(-0.5, 1.5)) if isf else (lambda: rng.randint(lo, hi))
+        vals, left, mode, const = [], 0, 0, None
+        for _ in range(sw * sh):
+            if left == 0:
+                left, mode, const = rng.randint(1, 12), rng.choice([0, 1, 2, 3, 3]), [draw() for _ in range(nc)]
+            left -= 1
+            vals += [lo] * nc if mode == 0 else ([hi] * nc if mode == 1 else (const if mode == 2 else [draw() for _ in range(nc)]))
+        return [rz.f32bits(v) for v in vals] if isf else vals
     if info["comp"] == "f32":
         gen = {"rand": lambda: rng.uniform(-0.5, 1.5), "extreme": lambda: rng.choice([0.0, 1.0]), "impulse": lambda: 0.0,
                "checker": lambda: 0.0}[kind]
@@ -46,7 +58,7 @@ def gen(tier, rng):
              (8, 8, 2, 2, None, 1), (5, 4, 11, 4, (2, 0, 16, 16), 4), (10, 10, 3, 3, None, 1), (2, 2, 5, 6, None, 1), (12, 5, 5, 2, (3, 1, 40, 17), 4),
              (1, 1, 3, 3, None, 1), (6, 1, 2, 1, None, 1), (16, 12, 4, 3, None, 1)]
     algs = [("conv", 1), ("interp", 1), ("ss", 1), ("ss", 2), ("ss", 3)]
-    kinds = ["rand", "extreme", "checker", "impulse"]
+    kinds = ["rand", "extreme", "checker", "impulse", "runs"]
     n = 0
     for pt in rz.ALL_PT:
         for gi, (sw, sh, dw, dh, box, Q) in enumerate(geoms):
@@ -57,7 +69,7 @@ def gen(tier, rng):
                         continue
                     alpha = bool(rz.PT[pt]["alpha"]) and n % 2 == 0
                     cases.append(rz.resize_case(pt, sw, sh, dw, dh, alg=alg, flt=flt, m=m, alpha=alpha, box=box, Q=Q, cpu=rz.pick(n, 101, rz.CPUS),
-                                                src_c={"g": "data", "v": content(pt, kinds[n % 4], sw, sh, rng)},
+                                                src_c={"g": "data", "v": content(pt, kinds[n % 5], sw, sh, rng)},
                                                 log=("src", "dst", "hooks", "imgs"), chk=("pipeline", "ret_ok")))
     # long windows (16 .. 60 taps: the wide-accumulator branches of the SIMD kernels), row counts of every residue of the
     # 4-row kernels, on every back-end
@@ -65,7 +77,7 @@ def gen(tier, rng):
         for (sw, sh, dw, dh) in ((40, 3, 2, 3), (3, 40, 3, 2), (70, 5, 3, 5), (48, 6, 2, 2)):
             n += 1
             flt = rz.pick(n, 316, ["Box", "Bilinear", "Lanczos3", "Gaussian", "Hamming"])
-            kind = rz.pick(n, 317, ["rand", "extreme", "checker"])
+            kind = rz.pick(n, 317, ["rand", "extreme", "checker", "runs"])
             data = content(pt, kind, sw, sh, rng)
             for cpu in rz.CPUS:
                 if tier == "quick" and cpu != "avx2" and rz.pick(n, 318, [0, 1]):
